@@ -92,12 +92,9 @@ func segsOf(recs []common.AccessLog, cuts, restarts []int) []seg {
 		return x
 	}
 	for _, c := range cuts {
-		hi := prev
-		if c > prev {
-			hi = clamp(c)
-		}
 		lo := clamp(prev)
-		out = append(out, seg{recs: recs[lo:max(lo, hi)]})
+		hi := max(lo, clamp(c))
+		out = append(out, seg{recs: recs[lo:hi]})
 		for i, r := range rs {
 			if r == c {
 				out = append(out, seg{restart: true})
